@@ -3,6 +3,7 @@ package main
 // Discharging obligations: one SMT-LIB query per obligation, solvers raced.
 
 import (
+	"strconv"
 	"bytes"
 	"context"
 	"crypto/sha256"
@@ -211,16 +212,30 @@ func discharge(o *Obligation, dir string, timeout int, confirm bool) *Result {
 	base := filepath.Join(dir, safeName(o.Name))
 	q := o.query(false, false)
 	if v, ok := cacheGet(q); ok {
-		parts := strings.SplitN(v, " ", 2)
+		// "status solver seconds": the time the proof took when it was found is
+		// reported again, so that tiering decisions do not depend on the cache
+		parts := strings.Fields(v)
 		res.Status = parts[0]
 		if len(parts) > 1 {
 			res.Solver = parts[1] + "(cached)"
 		}
+		if len(parts) > 2 {
+			if t, err := strconv.ParseFloat(parts[2], 64); err == nil {
+				res.TimeS = t
+				if float64(timeout) < t {
+					// found with a longer time-out than this tier allows: do not
+					// answer from the cache
+					res = &Result{Obl: o}
+					goto solve
+				}
+			}
+		}
 		return res
 	}
+solve:
 	defer func() {
 		if res.Status == "proved" || res.Status == "cover-ok" {
-			cachePut(q, res.Status+" "+res.Solver)
+			cachePut(q, fmt.Sprintf("%s %s %.2f", res.Status, strings.ReplaceAll(res.Solver, " ", ""), res.TimeS))
 		}
 	}()
 	file := base + ".smt2"
